@@ -89,8 +89,18 @@ def trimSuffix (s suf : Name) : Name :=
   | some r => r.reverse
   | none => s
 
+/-- Insert into a list sorted by byte order. -/
+def insertName (a : Name) : List Name → List Name
+  | [] => [a]
+  | b :: rest => if charsLe a b then a :: b :: rest else b :: insertName a rest
+
+/-- `sort.Strings` (any correct sort gives the same list: equal strings are indistinguishable). -/
+def sortNames : List Name → List Name
+  | [] => []
+  | a :: rest => insertName a (sortNames rest)
+
 /-- `sort.Strings(revisions); revisions[len(revisions)-1]` (`none` when there are none). -/
-def lastSorted (revs : List Name) : Option Name := (revs.mergeSort charsLe).getLast?
+def lastSorted (revs : List Name) : Option Name := (sortNames revs).getLast?
 
 mutual
 /-- `findInDir(dir, name, recurse)`, `node` being what `dir` denotes; `none` is Go's `""`
